@@ -2580,6 +2580,9 @@ def _io_method(interp, o: ExtObj, name: str, args: list, kwargs: dict) -> Any:
             # read(n) on any BufferedReader / buffered object is exact-or-EOF; peek(n) does at most one read on the
             # object below: exact only when that object is itself buffered
             exact = (name == "read" and (is_wrapper or root.attrs["buffered"])) or (name == "peek" and is_wrapper and below_buffered) or (name == "read1" and not is_wrapper and root.attrs["buffered"])
+            if isinstance(n, int) and 0 <= n < 3 and root.attrs.get("pos") == root.attrs.get("start", 0) and not root.attrs.get("own_reader"):
+                # fewer than the three header bytes are asked for: whatever comes back is not guaranteed to hold them
+                exact = False
             interp.emit("io", method=name, recv=o, n=n, exact=exact, wrapper=is_wrapper, raw_after_wrap=(not is_wrapper and root.attrs.get("wrapped", False)))
             root.attrs["reads"].append((name, n, "wrapper" if is_wrapper else "raw"))
             if n is None or (isinstance(n, int) and n < 0):
